@@ -329,6 +329,36 @@ func main() {
 			}
 		}
 		run.Cov["once_handles_in_one_process"] = len(handles)
+		// the same for 300 script templates and 300 css classes built by hand (what generated code builds): the
+		// definition is emitted at the first use in a context and never again
+		for c := 0; c < 2; c++ {
+			ctx := templ.InitializeContext(context.Background())
+			for round := 0; round < 3; round++ {
+				for i := 0; i < 300; i++ {
+					sc := templ.ComponentScript{Name: fmt.Sprintf("__templ_many_%d", i), Function: fmt.Sprintf("function __templ_many_%d(){}", i), Call: fmt.Sprintf("__templ_many_%d()", i), CallInline: fmt.Sprintf("__templ_many_%d()", i)}
+					var b strings.Builder
+					if err := templ.RenderScriptItems(ctx, &b, sc); err != nil {
+						run.Violation("many-scripts", fmt.Sprintf("script %d: %v", i, err), map[string]any{"script": i})
+						continue
+					}
+					defs := strings.Count(b.String(), "function "+sc.Name+"(")
+					if (round == 0 && defs != 1) || (round > 0 && defs != 0) {
+						run.Violation("many-scripts", fmt.Sprintf("the %d-th script template, use %d in context %d: its definition was emitted %d times in %q", i+1, round+1, c, defs, b.String()), map[string]any{"script": i, "use": round + 1})
+					}
+					cls := templ.ComponentCSSClass{ID: fmt.Sprintf("many_%d", i), Class: templ.SafeCSS(fmt.Sprintf(".many_%d{color:red;}", i))}
+					b.Reset()
+					if err := templ.RenderCSSItems(ctx, &b, cls); err != nil {
+						run.Violation("many-classes", fmt.Sprintf("class %d: %v", i, err), map[string]any{"class": i})
+						continue
+					}
+					rules := strings.Count(b.String(), ".many_"+fmt.Sprint(i)+"{")
+					if (round == 0 && rules != 1) || (round > 0 && rules != 0) {
+						run.Violation("many-classes", fmt.Sprintf("the %d-th css class, use %d in context %d: its rule was emitted %d times in %q", i+1, round+1, c, rules, b.String()), map[string]any{"class": i, "use": round + 1})
+					}
+				}
+			}
+		}
+		run.Cov["script_templates_and_classes_in_one_process"] = 600
 	}
 	// stylesheet endpoint serves the registered rules
 	if _, sheet := middlewareCtx(c1(), c2()); !strings.Contains(sheet, "."+c1ID+"{") || !strings.Contains(sheet, "."+c2ID+"{") {
